@@ -71,6 +71,13 @@ def key_hash(*parts):
     return int.from_bytes(hashlib.blake2b(repr(parts).encode(), digest_size=8).digest(), "big")
 
 
+def out_base():
+    """evidence/ and replays/ live in /verif; development runs against a scratch copy of the
+    repository (OL_REPO set by the mutation tooling) write elsewhere so that the committed
+    evidence always describes /repo itself"""
+    return os.environ.get("OLVERIF_OUT") or env.VERIF
+
+
 def engine(prop):
     return importlib.import_module("olverif.props.%s" % prop.lower())
 
@@ -104,7 +111,7 @@ def write_replay(prop, payload, diffs, what=""):
     body = {"property": prop, "payload": payload, "diffs": diffs, "what": what}
     blob = json.dumps(body, sort_keys=True, indent=1, default=repr)
     sha = hashlib.sha256(blob.encode()).hexdigest()[:16]
-    d = os.path.join(env.VERIF, "replays", prop)
+    d = os.path.join(out_base(), "replays", prop)
     os.makedirs(d, exist_ok=True)
     path = os.path.join(d, sha + ".json")
     with open(path, "w") as f:
@@ -229,7 +236,7 @@ def write_evidence(report, wall, level="exploration"):
         "wall_s": round(wall, 2),
         "violations": len(report.violations),
     }
-    d = os.path.join(env.VERIF, "evidence")
+    d = os.path.join(out_base(), "evidence")
     os.makedirs(d, exist_ok=True)
     path = os.path.join(d, report.prop + ".json")
     tmp = path + ".tmp"
@@ -282,7 +289,7 @@ def main(argv):
         eng.run(report)
         replay_findings(prop, eng, report)
         wall = time.time() - t0
-        old_dir = os.path.join(env.VERIF, "replays", prop)
+        old_dir = os.path.join(out_base(), "replays", prop)
         if os.path.isdir(old_dir):
             for f in os.listdir(old_dir):   # replay files describe the latest run only
                 if f.endswith(".json"):
